@@ -7,10 +7,9 @@ State of the Python algorithm and its model:
   operands by their index in `F`; `graph_insert` = `graphInsert` (look the node up, else append).
   Every expression the handlers build has its operands in `F` already (the factors of the
   operands, the argument-free operand `sf[i]` that was inserted when its node was visited), so
-  the index representation loses nothing — with ONE exception, `as_ufl(0.0)` in
-  `handle_conditional`, which need not be a node of `F`; the Python then fails with
-  `KeyError: Zero` in its last loop (`F.e2i[o]`).  The model records this (`pendingZero`) and
-  reports `zeroNotInF` at the end unless another error comes first, like the Python.
+  the index representation loses nothing; `as_ufl(0.0)` in `handle_conditional` is inserted by
+  `graph_insert(F, z)` right before the conditional that uses it (since commit e5efe38; before,
+  the Python failed with `KeyError: Zero` in its last loop when `Zero` was not a node of `F`).
 * `S.nodes[i]["factors"]` (a dict argkey → index in `F`)        ↦ `Dict`, an association list in
   insertion order; `factors[argkey] = …` is `Dict.set` (overwrite in place, else append).
 * the UFL constructors `f0 + f1`, `f0 * f1`, `f0 / f1`, `Conj(f0)`, `conditional(c, f1, f2)` with
@@ -32,6 +31,9 @@ inductive FErr where
   | nonlinear (cls : String)
   /-- `RuntimeError("Expecting equal argument rank terms among summands.")` -/
   | sumRank
+  /-- `RuntimeError("Expecting all summands to depend on the arguments.")` (since commit d075f67:
+  a sum of an argument-dependent and an argument-free term) -/
+  | sumArgFree
   /-- `AssertionError("Cannot divide by arguments.")` -/
   | divByArg
   /-- `AssertionError("Cannot have argument in condition.")` -/
@@ -40,8 +42,6 @@ inductive FErr where
   | condNonzeroBranch
   /-- `assert () not in fac1` / `fac2` -/
   | condEmptyKey
-  /-- `KeyError: Zero((), (), ())` in the final loop `F.add_edge(i, F.e2i[o])` -/
-  | zeroNotInF
   /-- `ValueError("Division by zero!")` from `Division.__new__` -/
   | divisionByZero
   /-- not a graph `build_scalar_graph` can produce (operand index out of order, wrong arity) -/
@@ -164,6 +164,8 @@ def buildDict {α : Type} (step : Array Node → α → Except FErr (Array Node 
 
 /-- `handle_sum` -/
 def handleSum (F : Array Node) (fac0 fac1 : Dict) : Except FErr (Array Node × Dict) :=
+  -- `if not fac0 or not fac1: raise RuntimeError("Expecting all summands to depend on …")`
+  if fac0.isEmpty || fac1.isEmpty then .error .sumArgFree else
   let argkeys := sortKeys (dedup (fac0.keys ++ fac1.keys))
   let keylen := (argkeys.headD []).length
   buildDict (fun F (x : Key × Option Nat × Option Nat) =>
@@ -201,27 +203,21 @@ def handleDivision (F : Array Node) (fac0 fac1 : Dict) (sf1 : Nat) :
   else buildDict (fun F f0 => mkDiv F f0 sf1) F (sortEntries fac0) []
 
 /-- `handle_conditional`; `z1`/`z2`: whether the argument-free branch expression is `Zero`.
-Returns also whether `as_ufl(0.0)` was needed while `Zero` is not a node of `F`. -/
+`z = as_ufl(0.0)` is inserted into `F` (`graph_insert(F, z)`) right before a conditional that
+uses it. -/
 def handleConditional (F : Array Node) (fac0 fac1 fac2 : Dict) (sf0 : Nat) (z1 z2 : Bool) :
-    Except FErr (Array Node × Dict × Bool) :=
+    Except FErr (Array Node × Dict) :=
   if !fac0.isEmpty then .error .condInCondition
   else if fac1.isEmpty && !z1 then .error .condNonzeroBranch
   else if fac2.isEmpty && !z2 then .error .condNonzeroBranch
   else if [] ∈ fac1.keys || [] ∈ fac2.keys then .error .condEmptyKey
   else
     let mas := sortKeys (dedup (fac1.keys ++ fac2.keys))
-    let entries := mas.map fun k => (k, (fac1.get k, fac2.get k))
-    let needZ := entries.any fun e => e.2.1.isNone || e.2.2.isNone
-    -- `z = as_ufl(0.0)`: its index in `F` if it is a node of `F`; if it is needed and is not a
-    -- node of `F`, the model inserts it and remembers the pending `KeyError`
-    let pending := needZ && !(F.toList.idxOf Node.zero < F.size)
-    let Fz := if needZ then graphInsert F Node.zero else (F, 0)
-    let z := Fz.2
-    let Fz := Fz.1
-    match buildDict (fun F (x : Option Nat × Option Nat) =>
-        .ok (mkCond F sf0 (x.1.getD z) (x.2.getD z))) Fz entries [] with
-    | .error e => .error e
-    | .ok (F', d) => .ok (F', d, pending)
+    buildDict (fun F (x : Option Nat × Option Nat) =>
+        -- `if fi1 is None or fi2 is None: graph_insert(F, z)`
+        let Fz := if x.1.isNone || x.2.isNone then graphInsert F Node.zero else (F, 0)
+        .ok (mkCond Fz.1 sf0 (x.1.getD Fz.2) (x.2.getD Fz.2)))
+      F (mas.map fun k => (k, (fac1.get k, fac2.get k))) []
 
 /-! ### The main loop -/
 
@@ -234,7 +230,6 @@ structure FState where
   sf : Array Nat := #[]
   /-- index in `F` of `as_ufl(1.0)` -/
   one : Nat
-  pendingZero : Bool := false
 
 def isArgKind : Kind → Bool
   | .arg .. => true
@@ -288,11 +283,7 @@ def stepNode (avIndex : Nat → Nat) (st : FState) (si : Nat) (n : Node) : Excep
       | .div, [f0, f1] => (handleDivision st.F f0 f1 (sfAt 1)).map done
       | .cond, [f0, f1, f2] =>
         let isZ := fun (i : Nat) => kindAt st.F (sfAt i) == .zero
-        match handleConditional st.F f0 f1 f2 (sfAt 0) (f1.isEmpty && isZ 1) (f2.isEmpty && isZ 2) with
-        | .error e => .error e
-        | .ok (F', d, pending) =>
-          .ok { st with F := F', facs := st.facs.push d, sf := st.sf.push 0,
-                        pendingZero := st.pendingZero || pending }
+        (handleConditional st.F f0 f1 f2 (sfAt 0) (f1.isEmpty && isZ 1) (f2.isEmpty && isZ 2)).map done
       | k, _ => .error (.nonlinear k.clsName)
 
 /-- the loop over the nodes of `S`, from node `si` on -/
@@ -343,38 +334,38 @@ def factorize (S : Graph) (rank : Nat) : Except FErr FResult :=
   match runNodes avIndex (initState S.nodes) 0 S.nodes.toList with
   | .error e => .error e
   | .ok st =>
-    if st.pendingZero then .error .zeroNotInF
-    else
-      .ok { F := st.F,
-            targetDicts := S.targets.map fun (t, comps) => (t, comps, targetDict avIndex rank st t),
-            nodeFacs := st.facs, argIndices := av }
+    .ok { F := st.F,
+          targetDicts := S.targets.map fun (t, comps) => (t, comps, targetDict avIndex rank st t),
+          nodeFacs := st.facs, argIndices := av }
 
 /-! ### Well-formedness
 
-The conditions under which the factorisation is a correct rewriting, as a decidable predicate of
-the graph.  They are stated on the argkey sets that the algorithm assigns to the operands
-(`nodeFacs`, a function of `S` alone):
+What the soundness proof needs BEYOND acceptance by the algorithm, as a decidable predicate of the
+graph, stated on the argkey sets that the algorithm assigns to the nodes (`nodeFacs`, a function of
+`S` alone).  These are the conditions that can still fail on an input the algorithm accepts:
 
-* `sum`: both operands depend on arguments or neither does.  (`handle_sum` silently DROPS an
-  argument-free summand next to an argument-dependent one — DESIGN F10.)
 * `prod`: the keys `sorted(k0 + k1)` for `k0` of the first and `k1` of the second operand are
-  pairwise distinct (else `factors[argkey] = …` overwrites a term).  Operands with disjoint
-  argument numbers always satisfy this.
-* the graph is in topological order, every node has the number of operands of its class, and the `pos` of the argument nodes are their ranks
-  `0 … n-1` (so that `AV[pos]` is that node);
+  pairwise distinct (else `factors[argkey] = …` overwrites a term: `(u₀+u₁)·(u₀+u₁)`).  Operands
+  with disjoint argument numbers always satisfy this.
 * a target of a form of rank ≥ 1 depends on arguments or is the literal zero (else its
-  contribution is dropped: "Zero form of arity 1 or higher: make factors empty"); the re-keyed
-  argkeys of a target are pairwise distinct.
+  contribution is dropped: "Zero form of arity 1 or higher: make factors empty" — e.g. the
+  component `f` of the Expression `as_vector((u, f))`); the re-keyed argkeys of a target are
+  pairwise distinct (always true for the real ordering keys; not proved);
+* the `pos` of the argument nodes are their ranks `0 … n-1` (the exporter's convention, so that
+  `AV[pos]` is that node).
 
-Everything else the proof needs (no argument under a non-linear operator, a condition or a
-divisor; conditional branches) is enforced by the algorithm itself through its errors. -/
+Implied by acceptance and therefore NOT part of the predicate (proved in
+`FfcxProofs/Lemmas/FactorizeNodes.lean`): topological order and operand counts (checked by
+`stepNode`), and — since commit d075f67 — that the operands of a sum are both argument-dependent or
+both argument-free (`handle_sum` raises `sumArgFree` otherwise; before, it silently dropped the
+argument-free summand, DESIGN F10).  No argument under a non-linear operator, a condition or a
+divisor, and the shape of conditional branches, are enforced through errors as well. -/
 
 def pairKeys (k0s k1s : List Key) : List Key :=
   k0s.flatMap fun k0 => k1s.map fun k1 => sortNat (k0 ++ k1)
 
 def wfNode (facs : Array Dict) (n : Node) : Bool :=
   match n.kind, n.deps with
-  | .sum, [a, b] => (facs[a]?.getD []).isEmpty == (facs[b]?.getD []).isEmpty
   | .prod, [a, b] =>
     decide (pairKeys (Dict.keys (sortEntries (facs[a]?.getD []))) (Dict.keys (sortEntries (facs[b]?.getD [])))).Nodup
   | _, _ => true
@@ -386,7 +377,6 @@ def wfTarget (avIndex : Nat → Nat) (S : Array Node) (rank : Nat) (facs : Array
    else decide (d.keys.map fun k => sortNat (k.map avIndex)).Nodup)
 
 def wfCheck (S : Graph) (rank : Nat) (r : FResult) : Bool :=
-  closedB S.nodes && arityB S.nodes &&
   -- the ordering keys of the arguments are their ranks (the exporter's convention for `arg pos _`)
   decide ((r.argIndices.map fun si => argPos (kindAt S.nodes si)) = List.range r.argIndices.length) &&
   S.nodes.all (wfNode r.nodeFacs) &&
@@ -401,8 +391,8 @@ def WF (S : Graph) (rank : Nat) : Prop :=
 instance (S : Graph) (rank : Nat) : Decidable (WF S rank) := by
   unfold WF; split <;> infer_instance
 
-/-- The stricter, purely syntactic condition named in DESIGN §6 (implies the two node
-conditions of `wfCheck` on graphs the algorithm accepts; evaluated by the harness as well):
+/-- The stricter, purely syntactic condition named in DESIGN §6 (evaluated by the harness as
+well):
 operands of a sum depend on the same argument numbers, operands of a product on disjoint ones. -/
 def argNumbers (S : Array Node) : Array (List Nat) :=
   S.foldl (fun acc n =>
